@@ -178,3 +178,28 @@ func C04CheckTracts(t *VerifTS, tracts []core.TractState) core.Error {
 	}
 	return reply.Err
 }
+
+// C04FailSnapshot / C04FailRestore let a MONITOR read replicas directly (through the real handlers)
+// without its checksum failures leaking into the failure map the heartbeat reports.
+func C04FailSnapshot(t *VerifTS) map[core.TractID]core.Error {
+	s := t.Store
+	s.lock.Lock()
+	defer s.lock.Unlock()
+	m := make(map[core.TractID]core.Error, len(s.failures))
+	for k, v := range s.failures {
+		m[k] = v
+	}
+	return m
+}
+
+func C04FailRestore(t *VerifTS, m map[core.TractID]core.Error) {
+	s := t.Store
+	s.lock.Lock()
+	defer s.lock.Unlock()
+	for k := range s.failures {
+		delete(s.failures, k)
+	}
+	for k, v := range m {
+		s.failures[k] = v
+	}
+}
